@@ -155,8 +155,8 @@ EXPORT errno_t _strncat_s_chk(char *restrict dest, rsize_t dmax,
     if (srcbos == BOS_UNKNOWN) {
         BND_CHK_PTR_BOUNDS(src, slen);
     } else if (unlikely(slen > srcbos)) {
-        return handle_str_bos_overflow("strncat_s: slen exceeds src",
-                                       dest, destbos);
+        return handle_str_bos_overflow("strncat_s: slen exceeds src", dest,
+                                       destbos == BOS_UNKNOWN ? dmax : destbos);
     }
 
     /* hold base of dest in case src was not copied */
